@@ -197,6 +197,7 @@ func (vlog *valueLog) rewrite(f *logFile) error {
 	var count, moved int
 	fe := func(e Entry) error {
 		count++
+		verifGCScanPoint(vlog.db, count) // verif: about to examine the count-th record of the file
 		if count%100000 == 0 {
 			vlog.opt.Debugf("Processing entry %d", count)
 		}
